@@ -9,7 +9,6 @@ import (
 	"sort"
 	"strings"
 	"testing"
-	"time"
 
 	"pgregory.net/rapid"
 
@@ -81,18 +80,16 @@ func TestReplayHang(t *testing.T) {
 		t.Fatal(err)
 	}
 	f := fs.build()
-	guard.Watch("replay", data, parseLimit, func() {
+	watch("replay", data, func() {
 		if pn := guard.Try(func() { builder.Parse(f, text) }); pn != nil {
 			t.Fatalf("Parse: %s", pn)
 		}
 	})
 }
 
-const parseLimit = 20 * time.Second
-
-// watchedParse runs builder.Parse under the hang watchdog and the panic guard.
+// watchedParse runs builder.Parse under the hang watchdog (20 s) and the panic guard.
 func watchedParse(name string, fs *fontSpec, f *sfnt.Font, text string) (ll gtab.LookupList, err error, pn *guard.Panic) {
-	guard.Watch(name, payload(fs, text), parseLimit, func() {
+	watch(name, payload(fs, text), func() {
 		pn = guard.Try(func() { ll, err = builder.Parse(f, text) })
 	})
 	return
